@@ -2,7 +2,11 @@
 
 package batcher
 
-import "sync/atomic"
+import (
+	"context"
+	"sync/atomic"
+	"time"
+)
 
 // VerifHook, when set by the verification harness (build tag `verif`), is called at
 // every verifPoint with the point's name and argument.
@@ -16,4 +20,60 @@ func verifPoint(name string, arg interface{}) {
 	if fn, ok := verifHook.Load().(func(name string, arg interface{})); ok && fn != nil {
 		fn(name, arg)
 	}
+}
+
+// ---- verification harness access (build tag verif only) ----
+
+// VerifLeaseManager is an exported twin of the unexported leaseManager interface, so that
+// the harness can give an AzureSharedResource a lease manager that tells partitions apart.
+type VerifLeaseManager interface {
+	Provision(ctx context.Context) error
+	CreatePartitions(ctx context.Context, count int) error
+	LeasePartition(ctx context.Context, id string, index uint32) time.Duration
+}
+
+type verifLeaseManagerAdapter struct {
+	parent ieventer
+	m      VerifLeaseManager
+}
+
+func (a *verifLeaseManagerAdapter) emit(event string, val int, msg string, metadata interface{}) {
+	a.parent.emit(event, val, msg, metadata)
+}
+func (a *verifLeaseManagerAdapter) provision(ctx context.Context) error { return a.m.Provision(ctx) }
+func (a *verifLeaseManagerAdapter) createPartitions(ctx context.Context, count int) error {
+	return a.m.CreatePartitions(ctx, count)
+}
+func (a *verifLeaseManagerAdapter) leasePartition(ctx context.Context, id string, index uint32) time.Duration {
+	return a.m.LeasePartition(ctx, id, index)
+}
+
+// VerifSetLeaseManager replaces the lease manager of r.
+func (r *AzureSharedResource) VerifSetLeaseManager(m VerifLeaseManager) {
+	r.leaseManager = &verifLeaseManagerAdapter{parent: r, m: m}
+}
+
+// VerifBlobLeaseManager gives the harness access to the unexported Azure Blob lease manager.
+type VerifBlobLeaseManager struct {
+	ev eventer
+	m  *azureBlobLeaseManager
+}
+
+func VerifNewBlobLeaseManager(accountName, containerName string, masterKey *string, container IAzureContainer, blob IAzureBlob,
+	listener func(event string, val int, msg string, metadata interface{})) *VerifBlobLeaseManager {
+	v := &VerifBlobLeaseManager{}
+	v.ev.AddListener(listener)
+	v.m = newAzureBlobLeaseManager(&v.ev, accountName, containerName)
+	if masterKey != nil {
+		v.m.withMasterKey(*masterKey)
+	}
+	v.m.withMocks(container, blob)
+	return v
+}
+func (v *VerifBlobLeaseManager) Provision(ctx context.Context) error { return v.m.provision(ctx) }
+func (v *VerifBlobLeaseManager) CreatePartitions(ctx context.Context, count int) error {
+	return v.m.createPartitions(ctx, count)
+}
+func (v *VerifBlobLeaseManager) LeasePartition(ctx context.Context, id string, index uint32) time.Duration {
+	return v.m.leasePartition(ctx, id, index)
 }
